@@ -174,7 +174,8 @@ def program(plan, method, stream, lim, fin, seg, rnd, cancel=None, reqhdrs=None,
         reqbody = reqbody or body_bytes(rnd.choice([0, 1, 100, 5000, 20000]), 7)
     if reqbody:
         L.append("reqbody " + hx(reqbody))
-    L.append("maxrlen %d" % lim)
+    # "no limit" is given as 2^31 - 1 in the plan; the call itself also gets the largest values of the type (sums with them wrap)
+    L.append("maxrlen %d" % (lim if lim != 2 ** 31 - 1 else rnd.choice([2 ** 31 - 1, 2 ** 64 - 1, 2 ** 64 - 2, 2 ** 64 - 3, 2 ** 63, 2 ** 32, 2 ** 64 - 1])))
     for i in range(0, len(stream), 30000):
         L.append("resp " + hx(stream[i:i + 30000]))
     sizes = seg if isinstance(seg, list) else seg_sizes(seg, len(stream), rnd)
